@@ -86,9 +86,22 @@ def main():
                       {"theorems": props["unprinted"]}, found_input=False)
 
     warnings.filterwarnings("ignore", message="numpy.core is deprecated")
+
+    # watchdog: a check that does not finish is reported, never left hanging
+    import signal
+
+    def _timeout(signum, frame):
+        raise TimeoutError(f"check exceeded its time limit ({limit} s)")
+    limit = int(os.environ.get("VERIF_TIME_LIMIT", "2400" if args.tier == "quick" else "14400"))
+    signal.signal(signal.SIGALRM, _timeout)
+    signal.alarm(limit)
     try:
         mod.run(rep, args.tier, common.make_rng(seed, cid))
-    except Exception as e:  # the harness itself failed: never silently pass
+        signal.alarm(0)
+    except BaseException as e:  # the harness itself failed: never silently pass
+        signal.alarm(0)
+        if isinstance(e, KeyboardInterrupt):
+            raise
         tb = traceback.format_exc()
         rep.violation("correspondence check could not be completed",
                       {"error": str(e), "traceback": tb[-3000:],
